@@ -528,6 +528,7 @@ impl Ctx {
                 .take(80)
                 .collect();
             let p = replay_dir.join(format!("{}-{}.json", prop, clean));
+            let profile = if v.sub.starts_with("checked/") { "checked" } else { profile };
             let body = json!({
                 "property": prop, "tier": tier.name(), "seed": seed, "profile": profile,
                 "sub": v.sub, "ord": v.ord, "state": v.state, "signature": v.sig,
